@@ -722,6 +722,26 @@ func (m *Machine) callBuiltin(b *ssa.Builtin, args []Value, site *ssa.Call) Valu
 				n++
 			}
 			return int64(n)
+		case *sym.Str:
+			ln := int(m.Concretize(m.C.Zext(src.Len, 32), false))
+			n := 0
+			for n < len(dst) && n < ln {
+				if src.Ch[n].IsConst() {
+					dst[n] = int64(src.Ch[n].Val)
+				} else {
+					dst[n] = src.Ch[n]
+				}
+				n++
+			}
+			return int64(n)
+		case *SymBytes:
+			ln := int(m.Concretize(m.C.Zext(src.S.Len, 32), false))
+			n := 0
+			for n < len(dst) && n < ln {
+				dst[n] = src.S.Ch[n]
+				n++
+			}
+			return int64(n)
 		}
 	case "close":
 		m.chanClose(args[0].(*Chan))
